@@ -33,7 +33,7 @@ theorem externalProblems_outline (t : ExternalTask) (fuel : Nat) (ps : List Prob
         (do
           let rightTh ← theoryTranslate t t.phMap fuel t.program
           let right := (controlTranslate t.userGuide.publicPreds rightTh).map fun a =>
-            { a with formula := a.formula.renamePreds (t.specPrivate.filter (· ∈ t.progPrivate)) }
+            { a with formula := a.formula.renamePreds t.clashMap }
           let ugAss ← t.userGuide.formulas.foldl (ugAssStep t.userGuide t.phMap) (.ok [])
           let taken := right.foldl (fun acc a => ext acc a.formula.preds)
             (left.foldl (fun acc a => ext acc a.formula.preds) t.userGuide.inputs)
@@ -146,13 +146,13 @@ theorem external_outline_sound (t : ExternalTask) (hbyp : t.bypassTightness = fa
                 (∀ a ∈ left, lFwdPrem a = true → sat J a.formula ρ) ∧
                 ¬ (Stable (t.program.substSym (phNu t.phMap J.fc)) t.userGuide.inputs
                   (restrictTo (ext t.program.preds t.userGuide.inputs)
-                    (renamedInterp (t.specPrivate.filter (· ∈ t.progPrivate)) J.pred)) J.fc ∧
-                  OutputsEmpty t t.program (renamedInterp (t.specPrivate.filter (· ∈ t.progPrivate)) J.pred))) ∨
+                    (renamedInterp t.clashMap J.pred)) J.fc ∧
+                  OutputsEmpty t t.program (renamedInterp t.clashMap J.pred))) ∨
              ((t.direction = .universal ∨ t.direction = .backward) ∧
                 (Stable (t.program.substSym (phNu t.phMap J.fc)) t.userGuide.inputs
                   (restrictTo (ext t.program.preds t.userGuide.inputs)
-                    (renamedInterp (t.specPrivate.filter (· ∈ t.progPrivate)) J.pred)) J.fc ∧
-                  OutputsEmpty t t.program (renamedInterp (t.specPrivate.filter (· ∈ t.progPrivate)) J.pred)) ∧
+                    (renamedInterp t.clashMap J.pred)) J.fc ∧
+                  OutputsEmpty t t.program (renamedInterp t.clashMap J.pred)) ∧
                 ∃ a ∈ left, lBwdConc a = true ∧ ¬ sat J a.formula ρ)))) := by
   obtain ⟨hpre, left, ΓR, po, hroles, hleft, hR, hPO, hps⟩ := externalProblems_outline t fuel ps h
   refine ⟨left, ΓR, po, hleft, hR, fun hnc hvalid J ρ hwit => ?_⟩
